@@ -275,7 +275,7 @@ def run_check(pid, tier="quick", seed=0, workers=None, limit=None, verbose=True)
     for idx, v in fresh:
         key = (v["clause"], json.dumps(v.get("facts", {}).get("sig", None), sort_keys=True))
         groups.setdefault(key, []).append((idx, v))
-    MAX_GROUPS, PER_GROUP = 12, 1
+    MAX_GROUPS, PER_GROUP = int(os.environ.get("ACMC_MAX_GROUPS", "12")), 1   # regression runs over many seeded changes ask for 1
     for gi, (key, lst) in enumerate(sorted(groups.items(), key=lambda kv: kv[0])):
         if gi >= MAX_GROUPS:
             break
